@@ -87,7 +87,7 @@ theorem body_deactivate_out (st : St) (t : Tok) (r : Req) :
   cases r with
   | findServers => cases h : st.endpointsEmpty <;> simp [body, h]
   | getEndpoints => rfl
-  | createSession k s c => cases s <;> cases c <;> rfl
+  | createSession k s c => cases s <;> cases c <;> simp only [body] <;> (try rfl) <;> (cases hn : newSessionSignatureChecked <;> simp [hn])
   | activateSession s ok =>
     simp only [body, findSession_deactivate]
     cases findSession st t with
@@ -95,7 +95,7 @@ theorem body_deactivate_out (st : St) (t : Tok) (r : Req) :
     | some x =>
       obtain ⟨xt, xa, xq, xr⟩ := x
       simp only [Option.map_some, deact]
-      cases s <;> cases ok <;> cases xr <;> simp
+      cases s <;> cases ok <;> cases xr <;> cases hv : verifySessionSignatureChecked <;> simp [hv]
   | closeSession => rfl
   | read => cases h : st.accessAttr <;> simp [body, accessCheck, h]
   | write v => cases h : st.accessAttr <;> simp [body, accessCheck, h]
